@@ -309,8 +309,6 @@ def work_multi(chunk, st):
             exp_size = tr['size']
             if fmt == 'json' and k == 'ssh-ed25519-cert-v01@openssh.com':
                 exp_size = None      # JSON carries keysize for RSA-family keys only
-            if tr['casize'] == 521:
-                continue
             if (e['size'], e['catype'], e['casize']) != (exp_size, shown_catype, tr['casize']) and not (fmt == 'json' and tr['catype'] is None and e['catype'] in (None, '') and not e['casize'] and e['size'] == exp_size):
                 st.violation('multi:details-differ-with-other-keys-present:%s' % k.split('@')[0], dict(case, key=k, reported=[e['size'], e['catype'], e['casize']], truth=[exp_size, shown_catype, tr['casize']]))
             got_lv = sorted(set(l for l, _t in size_notes(e['notes'])))
